@@ -168,19 +168,30 @@ fn create_diagnostic(err: &SplError, text: &str) -> Diagnostic {
 }
 
 /// Converts a string index to a `Position`.
+/// Columns are counted in UTF-16 code units and lines end with `\n`, `\r\n` or `\r`,
+/// as required by the LSP specification.
 /// If the index is out of bounds, the last possible position is returned.
 pub fn as_position(index: usize, text: &str) -> Position {
     let mut line = 0;
     let mut character = 0;
-    for (i, c) in text.char_indices() {
-        if i == index {
+    let mut chars = text.char_indices().peekable();
+    while let Some((i, c)) = chars.next() {
+        if i >= index {
             break;
         }
-        if c == '\n' {
-            line += 1;
-            character = 0;
-        } else {
-            character += 1;
+        match c {
+            '\n' => {
+                line += 1;
+                character = 0;
+            }
+            '\r' => {
+                // the `\n` of a `\r\n` ends the line
+                if !matches!(chars.peek(), Some((_, '\n'))) {
+                    line += 1;
+                    character = 0;
+                }
+            }
+            _ => character += c.len_utf16() as u32,
         }
     }
     Position { line, character }
@@ -200,8 +211,9 @@ fn as_index_range(pos_range: &PosRange, text: &str) -> TextRange {
     start..end
 }
 
-/// Converts a text `Position` to an index.
-/// If the position is out of bounds, the last possible index is returned.
+/// Converts a text `Position` (line, UTF-16 column) to an index.
+/// A column past the end of a line addresses the end of that line,
+/// a line past the end of the text addresses the end of the text.
 ///
 /// Note: This is the insertion index,
 /// so it can be after the last character.
@@ -209,16 +221,28 @@ fn as_index_range(pos_range: &PosRange, text: &str) -> TextRange {
 pub fn get_insertion_index(position: &Position, text: &str) -> usize {
     let mut line = 0;
     let mut character = 0;
-    let pos = (position.line, position.character);
-    for (i, c) in text.char_indices() {
-        if (line, character) == pos {
+    let mut chars = text.char_indices().peekable();
+    while let Some((i, c)) = chars.next() {
+        if line == position.line && character >= position.character {
             return i;
         }
-        if c == '\n' {
-            line += 1;
-            character = 0;
-        } else {
-            character += 1;
+        match c {
+            '\n' | '\r' if line == position.line => {
+                // a column past the end of the line means the end of the line
+                return i;
+            }
+            '\n' => {
+                line += 1;
+                character = 0;
+            }
+            '\r' => {
+                // the `\n` of a `\r\n` ends the line
+                if !matches!(chars.peek(), Some((_, '\n'))) {
+                    line += 1;
+                    character = 0;
+                }
+            }
+            _ => character += c.len_utf16() as u32,
         }
     }
     text.len()
